@@ -11,8 +11,9 @@
                         predecessor, fold)  ;  transform t c = apply_transformers c [t]  ;  pipe a b = a | b *)
 Require Import Cirbo.Model.Base Cirbo.Model.Gate Cirbo.Model.Circuit Cirbo.Model.Passes Cirbo.Model.WF.
 Require Import Cirbo.Generated.GateTypes.
+Require Import Cirbo.Model.Eval Cirbo.Model.Sem.
 Require Import Cirbo.Proofs.RebuildFacts Cirbo.Proofs.EffectRR Cirbo.Proofs.Pipeline Cirbo.Proofs.EffectMD
-               Cirbo.Proofs.EffectMU Cirbo.Proofs.C18Examples.
+               Cirbo.Proofs.EffectMU Cirbo.Proofs.TruthTableFacts Cirbo.Proofs.EffectME Cirbo.Proofs.C18Examples.
 
 (* ================= A. pipeline algebra ================= *)
 (* dropping an idempotent pass that equals its predecessor never changes the result: applying a list
@@ -20,6 +21,15 @@ Require Import Cirbo.Proofs.RebuildFacts Cirbo.Proofs.EffectRR Cirbo.Proofs.Pipe
 Theorem C18_apply_is_sequencing : forall c ts, outs_ok c ->
   apply_transformers c ts = apply_linear (linearize ts) c.
 Proof. exact apply_transformers_linear. Qed.
+
+(* the same over an abstract leaf semantics: if every leaf establishes an invariant P and every
+   idempotent-flagged leaf is idempotent on P, reduction does not change the fold *)
+Theorem C18_reduce_generic : forall (sem : transformer -> circuit -> res circuit) (P : circuit -> Prop),
+  (forall t c c1, sem t c = Ok c1 -> P c1) ->
+  (forall t c c1, is_leaf_idempotent t = true -> P c -> sem t c = Ok c1 -> sem t c1 = Ok c1) ->
+  forall ts c, P c ->
+    foldM (fun c t => sem t c) (reduce_from None ts) c = foldM (fun c t => sem t c) ts c.
+Proof. exact reduce_run. Qed.
 
 Theorem C18_sequencing_append : forall a b c,
   apply_linear (a ++ b) c = (do c1 <- apply_linear a c; apply_linear b c1).
@@ -182,3 +192,33 @@ Example C18_example_mu_iff :
   option_map (fun c => (outputs c, gates c)) (res_to_option (transform TMU c18_iff)) =
   Some (["a"; "g"], [("b", mkGate INPUT []); ("a", mkGate INPUT []); ("g", mkGate AND ["a"; "b"])]).
 Proof. exact c18_iff_facts. Qed.
+
+(* ================= D. MergeEquivalentGates (with its implied RemoveRedundantGates) ================= *)
+(* no two distinct non-INPUT gates of the result have the same truth table, where the tables are those
+   computed by get_gates_truth_table ON THE RESULT *)
+Theorem C18_me_effect : forall c c' gtt', WF c ->
+  transform TME c = Ok c' -> get_gates_truth_table c' = Ok gtt' ->
+  forall l1 l2 g1 g2, dget (gates c') l1 = Some g1 -> dget (gates c') l2 = Some g2 ->
+    gtyp g1 <> INPUT -> gtyp g2 <> INPUT -> dget gtt' l1 = dget gtt' l2 -> l1 = l2.
+Proof. exact me_effect. Qed.
+
+(* reading of get_gates_truth_table on a well-formed circuit: every gate has a table, with one entry per
+   Boolean input vector in the order of all_bool_vectors, and the entry is the semantic value (Sem.Eval)
+   of the gate under the assignment binding the inputs to the vector *)
+Theorem C18_gates_truth_table_spec : forall c gtt, WF c -> get_gates_truth_table c = Ok gtt ->
+  NoDup (dkeys gtt) /\
+  forall l, has_gate c l = true ->
+    exists vs, dget gtt l = Some vs /\
+      Forall2 (fun x v => exists a, zip_inputs (inputs c) (map inj x) [] = Ok a /\ Eval c a l v)
+              (all_bool_vectors (length (inputs c))) vs.
+Proof. exact gtt_spec. Qed.
+
+Example C18_example_me :
+  WF c18_eq /\
+  option_map (fun c => gates c) (res_to_option (transform TME c18_eq)) =
+  Some [("b", mkGate INPUT []); ("nb", mkGate NOT ["b"]); ("a", mkGate INPUT []); ("na", mkGate NOT ["a"]);
+        ("g2", mkGate NOR ["na"; "nb"]); ("o2", mkGate XOR ["g2"; "b"]); ("o1", mkGate XOR ["g2"; "a"])] /\
+  (do c' <- transform TME c18_eq; get_gates_truth_table c') =
+  Ok [("a", [F; F; T; T]); ("b", [F; T; F; T]); ("na", [T; T; F; F]); ("nb", [T; F; T; F]);
+      ("g2", [F; F; F; T]); ("o1", [F; F; T; F]); ("o2", [F; T; F; F])].
+Proof. exact c18_eq_facts. Qed.
